@@ -1385,20 +1385,31 @@ BOUNDED = [
 TRUSTED = [
     "pyvc/lib/c08_models.py: ghost filesystem and the effects of os.path.exists/isdir, os.remove, shutil.rmtree, os.makedirs, os.replace",
     "tempfile.TemporaryDirectory: fresh path (did not exist, differs from every path the caller names), removed by its context manager on every exit",
-    "zipfile.ZipFile(p,'w'): truncates at construction, unreadable until closed, close()/__exit__ writes the central directory even if the body raised",
+    "zipfile.ZipFile(p,'w'): truncates at construction, unreadable until closed, close()/__exit__ writes the central directory even if the body raised; append-only",
     "zarr.group(LocalStore(p), overwrite=True): p becomes a directory with an empty root group; group writes go to p in place; root attrs live in p/zarr.json",
-    "os.walk: top-down, every file exactly once; relpath(join(top,'zarr.json'), top) == 'zarr.json'",
+    "zarr Group.require_group/create_array, Attributes.__setitem__, Array.__setitem__: add the named entry, remove nothing",
+    "os.walk: top-down, every file exactly once; the files of the top directory are among all files; relpath(join(top,'zarr.json'), top) == 'zarr.json'",
     "load(p) succeeds only if the root attrs contain `_autoserialize` (serialize.py:load raises KeyError otherwise) - the definition of loadable",
-    "fault model: a failing operation raises BEFORE it has any effect; one fault per save; exception classes Exception / OSError / TypeError",
+    "fault model: a failing operation raises BEFORE it has any effect; one fault per save; exception classes Exception / OSError / TypeError "
+    "(forked only when the function under verification contains a `try` statement - otherwise the class is unobservable)",
+    "A7 kind facts: _serialize_value / _serialize_container / _write_ndarray / _write_bytes are executed on ONE real representative instance per "
+    "value kind (24 kinds, 7 containers, 5 arrays, 2 byte strings); isinstance/hasattr/torch.save/dill.dumps run natively on it; uniformity within a kind is assumed",
+    "dill.dumps raises for the two unpicklable representatives (generator, object whose __reduce_ex__ raises) - measured natively at check time",
     "pyvc engine (AST interpreter), z3, cvc5",
 ]
 ASSUMPTIONS = [
-    "A6 third-party behaviour from the library contracts above",
+    "A6 third-party behaviour from the library contracts above; A7 kind facts",
     "paths are whole-node names: descendants of the target belong to the target; the parent directory of the target exists "
     "(os.makedirs creating missing ancestors is not counted as altering another path)",
-    "objects are instances of plain classes (obj.__dict__), not attrs classes; skip=() in `save` (skip-list algebra is C14)",
+    "objects are instances of plain classes (obj.__dict__ with a SYMBOLIC number of attributes), not attrs classes; skip=() in `save` "
+    "(arbitrary skip sets in _recursive_save; skip-list algebra itself is C14)",
+    "container WIDTH is that of the representatives (<= 3 items, unrolled); depth is by contract (recursive calls go through the callee contracts)",
     "single-fault model (the property's quantifier injects one exception per save)",
+    "complete(target) for the atomicity clause = marker + every non-skipped attribute; the skip metadata is required only of a SUCCESSFUL save "
+    "(a target lacking only its skip lists does not load to an object missing attributes)",
 ]
-EXPLANATION = ("exceptional and normal postconditions of the real AutoSerialize.save / _recursive_save over a ghost filesystem, VCs generated "
-               "from the source with an exception forked at every may-raise call, discharged by z3/cvc5; fault injection on the real code as bounded stand-in")
+EXPLANATION = ("exceptional and normal postconditions of the real AutoSerialize.save / _recursive_save / _serialize_value / _serialize_container / "
+               "_write_ndarray / _write_bytes over a ghost filesystem and ghost zarr groups, VCs generated from the source with an exception forked "
+               "at every may-raise call (loops: at an arbitrary iteration through invariants), discharged by z3/cvc5; fault injection at every write "
+               "position on the real code as bounded stand-in")
 REPLAY = {}
